@@ -104,3 +104,19 @@ Theorem C19_identity_transform_raw_equal : forall norm unk t p, RT norm unk t p 
   exists r, transform norm (fun _ x => Ok x) (V t p) = Ok r /\ raw_equals r (V t p) = Ok true.
 Proof. exact identity_transform_raw_equal. Qed.
 Print Assumptions C19_identity_transform_raw_equal.
+
+From Cty Require Import WalkCount WalkNoDup.
+(* ---- "visits the value and each nested member exactly once", at every depth ---- *)
+(* on the structural fragment Walk reports one entry per node of the value (the value itself and every nested
+   member, nulls and unknowns included: [psize] counts exactly those here) and no path twice *)
+Theorem C19_walk_exactly_once : forall norm unk t p l, RT norm unk t p -> walk (V t p) = Ok l ->
+  length l = psize p /\ NoDup (map fst l).
+Proof. exact walk_exactly_once. Qed.
+Print Assumptions C19_walk_exactly_once.
+(* every reported path extends the path of the value walked (children are reported under their parent's path), for
+   any starting path and any fuel *)
+Theorem C19_walk_paths_extend : forall norm unk n t p, RT norm unk t p -> (pdepth p <= n)%nat ->
+  forall f pre l, walk_at f pre (V t p) = Ok l ->
+  NoDup (map fst l) /\ Forall (fun qx => exists q', fst qx = pre ++ q') l.
+Proof. exact walk_nodup_at. Qed.
+Print Assumptions C19_walk_paths_extend.
